@@ -244,7 +244,7 @@ theorem parseAll_lines : ∀ (toks : List (Line × List String)),
 /-- the lines `assemble()` reads: `read_lines(path_or_source, include_dirs=…)` as `frontEnd` calls it -/
 def readInput (fs : FS) (cwd : String) (includeDirs : List String) (input : Input) : Except Err (List Line) :=
   if !normAbs cwd then .error (.unsupported "cwd form")
-  else if !includeDirs.all normAbs then .error (.unsupported "include dir form")
+  else if !includeDirs.all absOk then .error (.unsupported "include dir form")
   else
     let fuel := fs.files.length + 2
     match input with
@@ -252,14 +252,14 @@ def readInput (fs : FS) (cwd : String) (includeDirs : List String) (input : Inpu
       if !text.toList.all (fun c => c.toNat < 128) then .error (.unsupported "non-ASCII source")
       else readLinesAux fs includeDirs fuel "<string>" cwd text.toList
     | .path p =>
-      if !normAbs p then .error (.unsupported "path form")
+      if !absOk p then .error (.unsupported "path form")
       else
-        match fs.readBytes p with
+        match fs.readAt p with
         | none => .error (.unsupported "main file missing")
         | some bs =>
           match bytesToAscii bs with
           | none => .error (.unsupported "non-ASCII source")
-          | some src => readLinesAux fs includeDirs fuel p (pathDirname p) src
+          | some src => readLinesAux fs includeDirs fuel p (baseOf p) src
 
 /-- lex + parse of the lines read -/
 def lexParse (lines : List Line) : Except Err (List Item) := do
@@ -271,7 +271,7 @@ theorem frontEnd_eq (fs : FS) (cwd : String) (includeDirs : List String) (input 
     frontEnd fs cwd includeDirs input = (readInput fs cwd includeDirs input >>= lexParse) := by
   unfold frontEnd readInput lexParse
   by_cases h1 : normAbs cwd = true
-  · by_cases h2 : includeDirs.all normAbs = true
+  · by_cases h2 : includeDirs.all absOk = true
     · simp only [h1, h2, Bool.not_true, Bool.false_eq_true, ↓reduceIte, pure, Except.pure, bind, Except.bind]
       cases input with
       | source text =>
@@ -281,9 +281,9 @@ theorem frontEnd_eq (fs : FS) (cwd : String) (includeDirs : List String) (input 
         · simp only [h3, Bool.not_false, ↓reduceIte, throw, throwThe, MonadExceptOf.throw, bind, Except.bind]
       | path p =>
         simp only
-        by_cases h3 : normAbs p = true
+        by_cases h3 : absOk p = true
         · simp only [h3, Bool.not_true, Bool.false_eq_true, ↓reduceIte, pure, Except.pure, bind, Except.bind]
-          cases fs.readBytes p with
+          cases fs.readAt p with
           | none => simp only [throw, throwThe, MonadExceptOf.throw, bind, Except.bind]
           | some bs =>
             simp only
